@@ -28,6 +28,26 @@ def observe(case):
         return {'skip': type(e).__name__}
     if len(m) > case.get('maxatoms', 22):
         return {'skip': 'too-large'}
+    if case.get('edit'):
+        # fingerprints before an edit of atom attributes (the library's own charge-rewriting paths keep ring data, not more), then the edit:
+        # what is observed below must describe the edited molecule
+        try:
+            m.linear_hash_set(case['lo'], case['hi'], case['nbp']), m.morgan_hash_set(case['lo'], case['hi'])
+            how = case['edit']
+            if how == 'transaction':
+                with m:
+                    for n in rnd.sample(list(m._atoms), min(2, len(m))):
+                        a = m._atoms[n]
+                        if rnd.random() < .5:
+                            a.charge = 1 if a.charge <= 0 else 0
+                        else:
+                            a.is_radical = not a.is_radical
+            elif how == 'neutralize':
+                m.neutralize()
+            else:
+                m.standardize()
+        except Exception as e:
+            return {'skip': 'edit-' + type(e).__name__}
     lo, hi, nbp, log, nact = case['lo'], case['hi'], case['nbp'], case['log'], case['nactive']
     order = list(m._atoms)
     idx = {n: i + 1 for i, n in enumerate(order)}
@@ -71,6 +91,12 @@ def run(ck):
         for lo, hi, nbp, log, na in pts:
             cases.append({'key': f'{s}|{lo}-{hi}|nbp{nbp}|2^{log}|act{na}', 'smi': s, 'lo': lo, 'hi': hi, 'nbp': nbp, 'log': log, 'nactive': na, 'thiele': k % 2 == 0,
                           'rs': rnd.randrange(1 << 30), 'maxatoms': 20 if hi >= 5 else 24})
+    charged = ['CC(=O)[O-].[Na+]', 'C[NH3+]', '[O-]c1ccccc1', 'CC[O-]', 'C[NH2+]C', 'OC(=O)C[NH3+]', '[O-]C(=O)CC[NH3+]', 'CN(=O)=O', 'C[N+]([O-])=O', 'CS(=O)(=O)[O-]', 'c1cc[nH+]cc1']
+    for k, s in enumerate(charged + chy.pick(corp, 30 if ck.quick else 400, ck.seed, 9)):
+        lo, hi, nbp, log, na = grid[k % len(grid)]
+        for how in ('transaction', 'neutralize', 'standardize'):
+            cases.append({'key': f'{s}|{lo}-{hi}|nbp{nbp}|2^{log}|act{na}|after-{how}', 'smi': s, 'lo': lo, 'hi': hi, 'nbp': nbp, 'log': log, 'nactive': na, 'thiele': k % 2 == 0,
+                          'rs': rnd.randrange(1 << 30), 'maxatoms': 20 if hi >= 5 else 24, 'edit': how})
     cases = ck.select('fingerprints', cases)
     if cases:
         res = vlib.pmap('checks.c17', 'observe', cases)
